@@ -30,15 +30,51 @@ def section_bytes(sid):
 SEC = {sid: section_bytes(sid) for sid in IDS}
 
 
-BLANKS = ['none', 'before-last', 'before-every', 'crlf-before-last']
+def rich_section_bytes(sid, variant):
+    """Same ids with options / bodies a real producer writes (the order rule
+    must not depend on them)."""
+    name = sid.lstrip('.')
+    e = sid.encode()
+    if name == 'diffx':
+        return b'#%s: encoding=utf-8, version=1.0\n' % e, 1
+    if name in ('change', 'file'):
+        return (b'#%s: encoding=%s\n' % (e, [b'utf-8', b'latin-1',
+                                              b'ascii'][variant % 3]), 1)
+    if name == 'preamble':
+        body = b'  one\r\n  two\r\n'
+        return (b'#%s: indent=2, length=%d, line_endings=dos, '
+                b'mimetype=text/markdown\n' % (e, len(body)) + body, 3)
+    if name == 'meta':
+        body = b'{\n    "k": [1, 2]\n}\n'
+        return (b'#%s: encoding=utf-8, format=json, length=%d\n'
+                % (e, len(body)) + body, 4)
+    body = [b'delta 1\nx\n', b'a\r\nb\r\n', b'\xff\xfea\x00\n\x00'][
+        variant % 3]
+    opts = [b'length=%d, line_endings=unix, type=binary' % len(body),
+            b'length=%d, line_endings=dos, type=text' % len(body),
+            b'encoding=utf-16, length=%d' % len(body)][variant % 3]
+    return b'#%s: %s\n' % (e, opts) + body, 1 + [2, 2, 1][variant % 3]
+
+
+RICH = [{sid: rich_section_bytes(sid, v) for sid in IDS} for v in range(3)]
+
+
+BLANKS = ['none', 'before-last', 'before-every', 'crlf-before-last',
+          'rich0', 'rich1', 'rich2']
 
 
 def check_sequence(seq, blank='none'):
     """seq: list of ids; all but possibly the last are a legal prefix.
     blank: where blank separator lines are placed (they are not counted in
     logical line numbers). Returns (violations, accepted_by_model)."""
+    sec = SEC
+    if blank.startswith('rich'):
+        sec = RICH[int(blank[4:])]
     parts = []
     for i, s in enumerate(seq):
+        if blank.startswith('rich'):
+            parts.append(sec[s][0])
+            continue
         if blank == 'before-every' or (
                 blank == 'before-last' and i == len(seq) - 1 and i > 0):
             parts.append(b'\n')
@@ -57,7 +93,7 @@ def check_sequence(seq, blank='none'):
             err_line = line
             break
         prev = s
-        line += SEC[s][1]
+        line += sec[s][1]
     recs, exc, r, gen = read_all(data)
     v = []
     if k is None:
@@ -74,7 +110,7 @@ def check_sequence(seq, blank='none'):
                 if x['line'] != ln or x['level'] != len(s) - len(s.lstrip('.')):
                     v.append(('record-line-or-level', '%r: %r' % (seq, x)))
                     break
-                ln += SEC[s][1]
+                ln += sec[s][1]
     else:
         if exc is None:
             v.append(('illegal-sequence-accepted:%s-after-%s' % (
@@ -122,7 +158,11 @@ def plan(tier):
                 'x 6 names; 9 legal, 21 illegal incl. 4-dot ids), every '
                 'content section with a minimal valid body; each sequence also '
                 'with a blank line before the last / before every header and '
-                'a CRLF blank + whitespace line before the last; each is '
+                'a CRLF blank + whitespace line before the last, and in three '
+                '"rich" renderings where every section carries the options '
+                'and bodies a real producer writes (encodings on containers, '
+                'indent / mimetype / dos preambles, binary / dos / UTF-16 '
+                'diffs); each is '
                 'read by the real DiffXReader; plus explicit-state closure of '
                 'the frozen reader state. Non-trivial: >= 3 accepted '
                 'sections ending in a rejection.' % (depth_for(tier) - 1),
@@ -142,7 +182,7 @@ def run_unit(unit, tier):
             seq = prefix + [s]
             allv = []
             for blank in (BLANKS if recurse[0] or len(seq) < 40
-                          else BLANKS[:2]):
+                          else ['none', 'before-last', 'rich0']):
                 viols, ok = check_sequence(seq, blank)
                 acc.evals += 1
                 acc.transitions += 1
